@@ -10,18 +10,18 @@ SHRINK_OWNERS = {
 }
 
 
-def rule_b(R, ctx):
+def rule_b(R, ctx, rid="C06.b"):
     Y = ctx.yrs
-    R.rule("C06.b", "R-ORDER+R-PROV: Store::encode_diff and ReadTxn::encode_state_as_update write Store::write_blocks_from(<their sv "
+    R.rule(rid, "R-ORDER+R-PROV: Store::encode_diff and ReadTxn::encode_state_as_update write Store::write_blocks_from(<their sv "
                     "parameter>) first and then the full delete set IdSet::from_store(&store.blocks), to the same encoder")
     for path, svname in (("yrs::store::Store::encode_diff", "sv"), ("yrs::transaction::ReadTxn::encode_state_as_update", "sv")):
         fn = Y.fn(path)
         v = FnView(fn)
         wb = fn.calls_to("yrs::store::Store::write_blocks_from")
-        R.floor("C06.b", "write_blocks_from in " + path, len(wb), 1)
+        R.floor(rid, "write_blocks_from in " + path, len(wb), 1)
         for cs, site in ordinal_sites(wb):
             sv = simp(v.arg(cs, 1))
-            R.ob("C06.b", fn, site + ":sv", sv[0] == "param" and sv[1] == 2, "state vector argument = %s (must be the caller's own sv parameter)" % show(sv), cs.loc())
+            R.ob(rid, fn, site + ":sv", sv[0] == "param" and sv[1] == 2, "state vector argument = %s (must be the caller's own sv parameter)" % show(sv), cs.loc())
             encs = [c for c in fn.calls_to("re:^<yrs::id_set::IdSet as yrs::updates::encoder::Encode>::encode$", "re:Encode>::encode$")
                     if term_has_call(v.arg(c, 0), "re:(DeleteSet>|IdSet)::from_store$")]
             ok = bool(encs) and all(fn.cfg().dominates(cs.bb, e.bb) for e in encs)
@@ -32,7 +32,7 @@ def rule_b(R, ctx):
                     if t[0] == "call" and callee_match(t[1], "re:(DeleteSet>|IdSet)::from_store$"):
                         ds_ok = field_path(simp_deep(t[2][0]))[-1:] == ["blocks"]
                 same_enc = simp_deep(v.arg(e, 1)) == simp_deep(v.arg(cs, 2))
-            R.ob("C06.b", fn, site + ":then-full-delete-set", ok and ds_ok and same_enc,
+            R.ob(rid, fn, site + ":then-full-delete-set", ok and ds_ok and same_enc,
                  "IdSet::from_store(store.blocks).encode(encoder) after write_blocks_from: ordered=%s from-blocks=%s same-encoder=%s" % (ok, ds_ok, same_enc), cs.loc())
     # public wrappers delegate
     for ver in ("v1", "v2"):
@@ -40,11 +40,11 @@ def rule_b(R, ctx):
         v = FnView(fn)
         cs = fn.calls_to("yrs::transaction::ReadTxn::encode_diff")
         ok = len(cs) == 1 and simp(v.arg(cs[0], 1))[0] == "param"
-        R.ob("C06.b", fn, "delegates", ok, "encode_diff_%s -> encode_diff(self, state_vector, encoder)" % ver)
+        R.ob(rid, fn, "delegates", ok, "encode_diff_%s -> encode_diff(self, state_vector, encoder)" % ver)
     fn = Y.fn("yrs::transaction::ReadTxn::encode_diff")
     v = FnView(fn)
     cs = fn.calls_to("yrs::store::Store::encode_diff")
-    R.ob("C06.b", fn, "delegates", len(cs) == 1 and simp(v.arg(cs[0], 1))[0] == "param", "ReadTxn::encode_diff -> Store::encode_diff(sv)")
+    R.ob(rid, fn, "delegates", len(cs) == 1 and simp(v.arg(cs[0], 1))[0] == "param", "ReadTxn::encode_diff -> Store::encode_diff(sv)")
 
 
 def rule_c(R, ctx):
@@ -88,11 +88,11 @@ def rule_d(R, ctx):
         R.ob("C06.d", fn, site + ":merged>0", ok, "guards: %s" % v.guard_descs(cs.bb), cs.loc())
 
 
-def rule_e(R, ctx):
+def rule_e(R, ctx, rid="C06.e"):
     Y = ctx.yrs
     fn = Y.fn("yrs::block_store::BlockStore::get_state_vector")
     v = FnView(fn)
-    R.rule("C06.e", "R-PROV skip-aware state vector: BlockStore::get_state_vector overrides, for every client with Skip ranges, the "
+    R.rule(rid, "R-PROV skip-aware state vector: BlockStore::get_state_vector overrides, for every client with Skip ranges, the "
                     "advertised clock by the start of the first skip (IdRanges::clock_start of BlockStore.skips) — a gap is never advertised as known")
     ins = [c for c in fn.calls_to("std::collections::HashMap::insert")]
     ok = False
@@ -103,23 +103,23 @@ def rule_e(R, ctx):
             g = v.guards(cs.bb)
             ok = all(term_has_field(l.term, "BlockStore.skips") or term_has_call(l.term, "re:::clock_start$") for l in g)
             why = "map.insert(client, %s) under %s" % (sshow(val, 6), [l.desc for l in g])
-    R.ob("C06.e", fn, "skip-override", ok, why)
+    R.ob(rid, fn, "skip-override", ok, why)
     # base value: list.clock() for every client
     cl = Y.closures.get(fn.path, [])
     base = any(term_has_call(F.Terms(c).local(0, 10), "yrs::block_store::ClientBlockList::clock") for c in cl)
-    R.ob("C06.e", fn, "base-clock", base, "every client starts from ClientBlockList::clock(): %s" % base)
+    R.ob(rid, fn, "base-clock", base, "every client starts from ClientBlockList::clock(): %s" % base)
     ret = v.terms.local(0, 12)
-    R.ob("C06.e", fn, "returns-map", term_has_call(ret, "yrs::state_vector::StateVector::new"), "returns StateVector::new(map)")
+    R.ob(rid, fn, "returns-map", term_has_call(ret, "yrs::state_vector::StateVector::new"), "returns StateVector::new(map)")
 
 
-def rule_f(R, ctx):
+def rule_f(R, ctx, rid="C06.f"):
     Y = ctx.yrs
     fn = Y.fn("yrs::store::Store::diff_state_vectors")
     v = FnView(fn)
-    R.rule("C06.f", "R-GUARD+R-PROV diff of state vectors: a client is included with the remote clock iff local_clock > remote_clock, "
+    R.rule(rid, "R-GUARD+R-PROV diff of state vectors: a client is included with the remote clock iff local_clock > remote_clock, "
                     "and with clock 0 iff the remote vector does not contain it")
     pushes = fn.calls_to("std::vec::Vec::push")
-    R.floor("C06.f", "pushes in diff_state_vectors", len(pushes), 2)
+    R.floor(rid, "pushes in diff_state_vectors", len(pushes), 2)
     kinds = set()
     for cs, site in ordinal_sites(pushes):
         val = simp_deep(v.arg(cs, 1))
@@ -137,14 +137,14 @@ def rule_f(R, ctx):
                 rem = b if loc_is_a else a
                 ok = ok and second == rem
                 kinds.add("known-client")
-                R.ob("C06.f", fn, site, ok, "push (client, %s) under %s" % (show(second, 5), l.desc), cs.loc())
+                R.ob(rid, fn, site, ok, "push (client, %s) under %s" % (show(second, 5), l.desc), cs.loc())
             elif nc:
                 ok = second[0] == "const" and second[1] == 0 and root_name(simp_deep(nc[0].term)[2][0] if simp_deep(nc[0].term)[0] == "call" else None) == "remote_sv"
                 kinds.add("unknown-client")
-                R.ob("C06.f", fn, site, ok, "push (client, %s) under %s" % (show(second, 5), nc[0].desc), cs.loc())
+                R.ob(rid, fn, site, ok, "push (client, %s) under %s" % (show(second, 5), nc[0].desc), cs.loc())
             else:
-                R.ob("C06.f", fn, site, False, "push under unrecognised guards %s" % [l.desc for l in g], cs.loc())
-    R.ob("C06.f", fn, "both-cases", kinds == {"known-client", "unknown-client"}, "cases found: %s" % sorted(kinds))
+                R.ob(rid, fn, site, False, "push under unrecognised guards %s" % [l.desc for l in g], cs.loc())
+    R.ob(rid, fn, "both-cases", kinds == {"known-client", "unknown-client"}, "cases found: %s" % sorted(kinds))
 
 
 def _clock_of(fn, op):
